@@ -6,7 +6,7 @@ Driver for C22 (retention policy). Records per case (harness/main/c22.go), `<X>`
   ps <idx> <sec> <nsec> <year> <month> <day> <hour> <isoYear> <isoWeek>      pst <idx> <tag>*
   pol<X> <last> <hourly> <daily> <weekly> <monthly> <yearly>
   dur<X> <i> <hours> <days> <months> <years>        ptag<X> <tag>*
-  latest <sec> <nsec>          win<X> <i> <sec> <nsec> <exactsec>
+  latest <sec> <nsec>          win<X> <i> <sec> <nsec>     (window start latest − duration, oracle)
   keep<X> <idx>*   remove<X> <idx>*   reason<X> <idx> <hex reason>*   ctr<X> <idx> <6 counters>
   res panic|refuse|error <msg>
 -/
@@ -45,15 +45,18 @@ def parsePolicy (c : Case) (x : String) : Policy :=
     tags := (c.findAll ("ptag" ++ x)).toList.map fun r => strs r 1 }
 
 /-- the `AddDate/Add` oracle as a table: duration ↦ (window start as computed by the source, exact seconds) -/
-def winTable (c : Case) : List (Dur × Int × Int) :=
+def winTable (c : Case) : List (Dur × Int) :=
   (["", "2"].flatMap fun x =>
     (c.findAll ("win" ++ x)).toList.map fun r =>
-      (parseDur c x (nat (r.getD 1 "9")), timeOf (r.getD 2 "0") (r.getD 3 "0"), int (r.getD 4 "0")))
+      (parseDur c x (nat (r.getD 1 "9")), timeOf (r.getD 2 "0") (r.getD 3 "0")))
 
-def subOf (tbl : List (Dur × Int × Int)) (_latest : Int) (d : Dur) : Int :=
+def subOf (tbl : List (Dur × Int)) (_latest : Int) (d : Dur) : Int :=
   match tbl.find? (fun e => e.1 == d) with
-  | some e => e.2.1
+  | some e => e.2
   | none => 0
+
+/-- more hours than a `time.Duration` can hold (2562047 h) -/
+def hugeHours (d : Dur) : Bool := d.hours > 2562047
 
 def nats (r : Array String) (from_ : Nat) : List Nat := (r.toList.drop from_).map nat
 
@@ -79,7 +82,7 @@ def parseOutcome (c : Case) (x : String) : Option Outcome :=
   | _, _ => none
 
 /-- compare one run of the implementation with the model and the spec; returns labels on success -/
-def checkRun (c : Case) (x : String) (list : List PSnap) (now latestImpl : Int) (tbl : List (Dur × Int × Int))
+def checkRun (c : Case) (x : String) (list : List PSnap) (now latestImpl : Int) (tbl : List (Dur × Int))
     (o : Outcome) : Except Verdict (List String) := do
   let p := parsePolicy c x
   let sub := subOf tbl
@@ -87,17 +90,13 @@ def checkRun (c : Case) (x : String) (list : List PSnap) (now latestImpl : Int) 
   let needed := ([p.within] ++ withinKinds.map p.withinOf).filter (!·.zero)
   if !list.isEmpty && needed.any (fun d => !(tbl.any (·.1 == d))) then
     throw (.differ "oracle" "window-start-missing")
-  -- the window start must be latest minus the duration (exact arithmetic in seconds)
-  match tbl.find? (fun e => needed.contains e.1 && e.2.1 / 1000000000 != e.2.2) with
-  | some e => throw (.specfalse "C22:within:window-start-is-not-latest-minus-duration"
-      s!"dur={repr e.1} start_sec={e.2.1 / 1000000000} exact_sec={e.2.2}")
-  | none => pure ()
   if !specOK sub latestImpl list p o.keep o.remove (o.reasons.map (·.2.length)) then
     let sorted := sortNewestFirst list
     let sig :=
       if (o.keep ++ o.remove).length != list.length || !(list.all fun s => (o.keep ++ o.remove).count s.sn.id == 1) then
         "C22:partition:keep-remove-do-not-partition-the-list"
       else if o.reasons.any (·.2.isEmpty) || o.reasons.length != o.keep.length then "C22:reasons:kept-without-reason"
+      else if needed.any hugeHours then "C22:within:hours-beyond-time.Duration-range"
       else if keysRegular sorted then "C22:rules:kept-set-differs-from-documented-rules"
       else "C22:rules:kept-set-differs-irregular-keys"
     throw (.specfalse sig s!"keep={o.keep} remove={o.remove}")
@@ -109,6 +108,10 @@ def checkRun (c : Case) (x : String) (list : List PSnap) (now latestImpl : Int) 
     if mk != o.keep then throw (.differ ("keep" ++ x) s!"model={mk} impl={o.keep}")
     if mr != o.remove then throw (.differ ("remove" ++ x) s!"model={mr} impl={o.remove}")
     let mreasons := (reasonsOf ds).map fun e => (e.1.sn.id, e.2)
+    -- a window beyond the range of time.Duration that only shows in the reasons is the same
+    -- failing input class as one that changes the kept set
+    if mreasons != o.reasons && needed.any hugeHours then
+      throw (.specfalse "C22:within:hours-beyond-time.Duration-range" s!"reasons model={mreasons} impl={o.reasons}")
     if mreasons != o.reasons then throw (.differ ("reasons" ++ x) s!"model={mreasons} impl={o.reasons}")
     if !o.counters.isEmpty then
       let mc := (ds.filter (·.keep)).map fun d => (d.snap.sn.id, d.counters)
@@ -170,7 +173,8 @@ def handle (c : Case) : Verdict :=
             let lawBroken := ([0,1,2,3,4,5] : List Nat).any fun i =>
               let d := parseDur c "" i; let d' := parseDur c "2" i
               !d.zero && subOf tbl 0 d' > subOf tbl 0 d
-            let sig := if lawBroken then "C22:monotone:longer-duration-gives-later-window-start"
+            let sig := if ([0,1,2,3,4,5] : List Nat).any (fun i => hugeHours (parseDur c "2" i)) then "C22:within:hours-beyond-time.Duration-range"
+              else if lawBroken then "C22:monotone:longer-duration-gives-later-window-start"
               else if p.tags.length != q.tags.length then "C22:monotone:tags-or-counts" else "C22:monotone:counts-or-durations"
             .specfalse sig s!"keep={o.keep} keep2={o2.keep}"
           else
